@@ -354,6 +354,7 @@ def run_check(pid, tier, seed, jobs=None, budget_scale=1.0):
     rc = 0
     known_seen = []
     new_violations = 0
+    not_replayed = []
     for key in sorted(total["violations"]):
         v = total["violations"][key]
         viol = v["violation"]
@@ -387,12 +388,21 @@ def run_check(pid, tier, seed, jobs=None, budget_scale=1.0):
               f"fresh_replay={'reproduced' if ok else 'NOT-REPRODUCED'} digest_same={same}")
         print(f"  detail: {viol['detail'][:400]}")
         if not ok:
-            print(f"HARNESS-ERROR property={pid} violation does not replay in a fresh interpreter: {path}")
-            print(out[-800:])
-            rc = max(rc, 2)
+            # either the harness is not deterministic, or the library keeps state between runs of one process
+            # (then only a longer history reproduces it).  Decided after the loop: a harness error unless some
+            # other violation of this property did replay.
+            not_replayed.append((path, viol, out[-600:]))
             continue
         print(f"VIOLATION property={pid} replay={path}")
         rc = max(rc, 1)
+    for path, viol, out in not_replayed:
+        if rc == 1:
+            print(f"NOTE property={pid} clause={viol['clause']} ctx={viol['ctx']} was seen only with state left by earlier runs in the "
+                  f"same process and does not replay from a fresh interpreter ({path}); replayable violations are listed above")
+        else:
+            print(f"HARNESS-ERROR property={pid} violation does not replay in a fresh interpreter: {path}")
+            print(out)
+            rc = 2
     if total["harness_errors"]:
         for h in total["harness_errors"][:5]:
             print("HARNESS-ERROR", h)
